@@ -460,8 +460,9 @@ Definition answer_explained (st : store) (f : aop) : Prop :=
   | RFail code => o_status f = code /\ spec_apply st (o_req f) = st   (* 409 / 400 / 404: nothing changes *)
   | RRead None => o_status f = 404
   | RRead (Some (k, b)) => o_status f = 200 /\ o_rkind f = k /\ o_rbody f = b
-  | RNoopDone => o_req f = RCustom   (* a request of the custom-data API: outside the replay sequence, so it
-                                        changed neither an object nor the version *)
+  | RNoopDone => o_req f = RCustom \/ o_req f = RNoop
+                 (* a request of the custom-data API, or a member purge: outside the replay sequence, so it
+                    changed neither an object nor the version *)
   | _ => False
   end.
 
@@ -473,7 +474,8 @@ Proof.
   - apply andb_true_iff in H. destruct H as (H & H3). apply andb_true_iff in H. destruct H as (H1 & H2).
     apply Z.eqb_eq in H1. apply String.eqb_eq in H2. apply String.eqb_eq in H3. auto.
   - apply Z.eqb_eq in H. exact H.
-  - apply andb_true_iff in H. destruct H as (H & _). destruct (o_req f); try discriminate. reflexivity.
+  - apply orb_true_iff in H. destruct H as [H|H]; apply andb_true_iff in H; destruct H as (H & _);
+      destruct (o_req f); try discriminate; auto.
 Qed.
 
 (** *** soundness of [api_prop] *)
@@ -482,6 +484,10 @@ Theorem api_prop_sound c :
   let ops := index_from 0 (a_ops c) in
   let st0 := (a_init c, a_v0 c) in
   let succ := api_succ c in
+  (* exclusion against a member that sits in its critical section: no request that needs the cluster lock
+     and was answered from inside it starts and completes between the stamps of such a hold *)
+  (forall acq rel f, In (acq, rel) (a_holds c) -> In f (a_ops c) -> locked_done f = true ->
+     ~ (acq < o_call f /\ o_ret f < rel)) /\
   (* the successful mutations, ordered by the version they returned, ... *)
   Permutation succ (filter succP ops) /\
   (* ... returned v0+1, v0+2, ...: strictly increasing by one, no gap, no duplicate *)
@@ -521,7 +527,12 @@ Theorem api_prop_sound c :
     (forall x, In x ops -> in_seq (snd x) = false -> o_bad (snd x) = true -> o_hit (snd x) = false ->
        o_status (snd x) = 400).
 Proof.
-  unfold api_prop. intros H. apply andb_true_iff in H. destruct H as (Hver & Hex). cbv zeta.
+  unfold api_prop. intros H. apply andb_true_iff in H. destruct H as (H & Hex).
+  apply andb_true_iff in H. destruct H as (Hholds & Hver). cbv zeta.
+  split.
+  { intros acq rel f Hh Hf Hl (H1 & H2). unfold holds_ok in Hholds. rewrite forallb_forall in Hholds.
+    specialize (Hholds _ Hh). cbn in Hholds. rewrite forallb_forall in Hholds. specialize (Hholds _ Hf).
+    rewrite Hl in Hholds. apply Z.ltb_lt in H1. apply Z.ltb_lt in H2. rewrite H1, H2 in Hholds. discriminate. }
   set (ops := index_from 0 (a_ops c)). set (st0 := (a_init c, a_v0 c)). set (succ := api_succ c) in *.
   apply (list_eqb_spec Z.eqb Z.eqb_eq) in Hver.
   assert (Hperm : Permutation succ (filter succP ops)) by apply sort_ver_perm.
@@ -610,7 +621,7 @@ Definition ex_api_case : api_case :=
                 {| o_mem := 1%nat; o_req := RDelete "a"; o_bad := false; o_fk := O; o_hit := false; o_call := 13; o_ret := 14;
                    o_status := 200; o_ver := 10; o_rkind := ""; o_rbody := "" |};
                 ex_op (RGet "a") 15 16 404 10 ];
-     a_final := [("b", ("K1", "keep"))]%string; a_finalver := 10; a_conc := true |}.
+     a_final := [("b", ("K1", "keep"))]%string; a_finalver := 10; a_conc := true; a_holds := [(0, 1)] |}.
 
 Example api_prop_nonvacuous :
   api_prop ex_api_case = true /\
